@@ -298,6 +298,7 @@ func runC02(e *Engine, r *Report) {
 	}
 	ruleRestoreRebase(e, r)
 	ruleTermInMemFirst(e, r)
+	ruleRaftPredicates(e, r, "upToDate", "matchTerm")
 }
 
 // runDET: no wall clock / randomness / unordered map iteration feeding state
